@@ -9,8 +9,9 @@
    The observations are the views (C11_Model.view: what the public accessors return) of the gateway that
    went through the history ("hot") and of a second, fresh gateway that only received the latest objects,
    for every cluster name of the universe, plus the results of the fresh gateway's deliveries.
-   A history is in the quantifier when no op bypassed admission and every re-delivery was a legal one
-   (the controller had asked for a requeue of that event, or it still is the current version: resync). *)
+   A history is judged when its final state is one the property speaks about (C10_Spec.judged): stored objects
+   field-valid and pairwise name-disjoint, every re-delivery a legal one (requeued event or resync), and every
+   stored cluster has had an event processed successfully since its current version was stored. *)
 From KG Require Import Prelude C10_Model C10_Spec C11_Model.
 Open Scope string_scope.
 Open Scope Z_scope.
@@ -38,18 +39,11 @@ Record c11_obs := {
   ob_fresh_res : list Z        (* result of each delivery to the fresh gateway: 1 ok, 2 requeue, 3 error *)
 }.
 
-(* is the history inside the quantifier? (uses C10_Spec's bookkeeping of events: names, results, versions) *)
-Definition legal_step (s : sstate) (p : op) : bool :=
-  match p with
-  | OApply force _ => negb force
-  | ODelete _ => true
-  | ORetry k => legal_retry s k
-  end.
-Fixpoint legal_hist (s : sstate) (l : list (op * step_obs)) : bool :=
-  match l with
-  | [] => true
-  | (p, b) :: r => (legal_step s p && legal_hist (snext s p b) r)%bool
-  end.
+(* Is the final state inside the quantifier?  C10_Spec.judged on the state after the whole history: every stored
+   object passed field validation, every re-delivery was a legal one (a requeued event, or a resync of the
+   current version), the stored objects are pairwise name-disjoint, and every stored cluster has had an event
+   processed successfully since its current version was stored. *)
+Definition legal_hist (s : sstate) (l : list (op * step_obs)) : bool := judged_after s l.
 
 (* the latest objects "apply on a fresh gateway" *)
 Definition fresh_applies (o : c11_obs) : bool := forallb (Z.eqb 1) (ob_fresh_res o).
